@@ -22,6 +22,7 @@ func main() {
 		vlib.Group{Name: "astar-heuristics", Gen: genAStarH},
 		vlib.Group{Name: "yen", Gen: genYen},
 		vlib.Group{Name: "dstar", Gen: genDStar},
+		vlib.Group{Name: "dstar-heur", Gen: genDStarHeur},
 		vlib.Group{Name: "dg4neg", Gen: genDg4Neg},
 		vlib.Group{Name: "dg4", Gen: genDg4},
 	)
